@@ -97,7 +97,11 @@ class BusABC:
         if self.fail_next:
             self.fail_next -= 1
             raise CanError("model bus: transmit buffer full")
-        self.sent.append(msg)
+        # a bus serialises the frame when send() is called: later changes of the message object are not sent
+        self.sent.append(Message(timestamp=msg.timestamp, arbitration_id=msg.arbitration_id,
+                                 is_extended_id=msg.is_extended_id, is_remote_frame=msg.is_remote_frame,
+                                 is_error_frame=msg.is_error_frame, channel=getattr(msg, "channel", None),
+                                 dlc=getattr(msg, "dlc", None), data=_copy(msg.data)))
 
     def send_periodic(self, msgs, period, duration=None, store_task=True, **kw):
         cls = ModifiableCyclicTask if self.modifiable else CyclicTask
